@@ -770,15 +770,34 @@ fn run_trie(cx: &mut Ctx, p: &Pools, rng: &mut Rng, script: Option<(Vec<Key>, Ve
     cx.bump("tries");
 }
 
-/// Layered[ TrieBuf(in-memory, filled by adds), Trie ; user = TrieBuf(in-memory) ] under a history on the user layer
-fn run_layered(cx: &mut Ctx, p: &Pools, rng: &mut Rng, len: usize) {
+/// does the user layer of a `Layered` (the only `TrieBuf` that can have one) have a snapshot writer
+/// registered?  (`Layered` hides its layers; `Debug` shows them: `n_triebufs` layers print `join_handle`)
+fn layered_writer_pending(l: &Layered, n_triebufs: usize) -> bool {
+    format!("{:?}", l).matches("join_handle: None").count() < n_triebufs
+}
+
+/// Layered[ TrieBuf(in-memory, filled by adds), Trie ; user = TrieBuf ] under a history applied through
+/// `Layered`'s own `DictionaryMut` methods; the user layer is in-memory or (`file`) file-backed, in
+/// which case `flush` / `reopen` / close-and-open go through `Layered` as well
+fn run_layered(cx: &mut Ctx, p: &Pools, rng: &mut Rng, len: usize, file: bool) {
+    let kind = if file { "layf" } else { "lay" };
     let keys = p.pick_keys(rng);
     let na = rng.below(7) as usize;
     let nb = rng.below(7) as usize;
     let a_es = gen_entries(p, &keys, rng, na);
     let b_es = gen_entries(p, &keys, rng, nb);
     let a_ops: Vec<Op> = a_es.iter().map(|(k, t, f, tm)| Op::Add(k.clone(), t.clone(), *f, *tm)).collect();
-    let mk = |a_ops: &[Op]| -> (Layered, Ref, Tracker) {
+    let tmp = tempfile::tempdir().unwrap();
+    let path = tmp.path().join("user.dat");
+    let path_twin = tmp.path().join("twin.dat");
+    let open_user = |path: &Path| -> Box<dyn Dictionary> {
+        if file {
+            Box::new(TrieBuf::open(path).unwrap())
+        } else {
+            Box::new(TrieBuf::new_in_memory())
+        }
+    };
+    let mk = |a_ops: &[Op], user: Box<dyn Dictionary>| -> (Layered, Ref, Tracker) {
         let mut a = TrieBuf::new_in_memory();
         let mut ar = Ref::default();
         let mut at = Tracker::default();
@@ -787,18 +806,18 @@ fn run_layered(cx: &mut Ctx, p: &Pools, rng: &mut Rng, len: usize) {
             ar.apply(op);
             at.apply(op, ok);
         }
-        (Layered::new(vec![Box::new(a), Box::new(build_trie(&b_es))], Box::new(TrieBuf::new_in_memory())), ar, at)
+        (Layered::new(vec![Box::new(a), Box::new(build_trie(&b_es))], user), ar, at)
     };
-    let (mut lay, a_ref, a_tr) = mk(&a_ops);
-    let (mut twin, _, _) = mk(&a_ops);
+    let (mut lay, a_ref, a_tr) = mk(&a_ops, open_user(&path));
+    let (mut twin, _, _) = mk(&a_ops, open_user(&path_twin));
     let b_ref = trie_ref(&b_es);
     let mut u_ref = Ref::default();
-    let mut u_tr = Tracker::default();
+    let mut u_tr = Tracker { file_backed: file, ..Default::default() };
     let a_s = a_ops.iter().map(op_s).collect::<Vec<_>>().join(" ");
     let b_s = b_es.iter().map(entry_s).collect::<Vec<_>>().join(" ");
     let mut hist: Vec<String> = vec![];
     for _ in 0..len {
-        let mut op = gen_op(p, &keys, &u_ref, rng, false);
+        let mut op = gen_op(p, &keys, &u_ref, rng, file);
         // now and then an empty phrase: `Layered` answers Ok and does not forward it
         if rng.chance(1, 15) {
             op = match op {
@@ -807,105 +826,148 @@ fn run_layered(cx: &mut Ctx, p: &Pools, rng: &mut Rng, len: usize) {
                 o => o,
             };
         }
-        let skipped = matches!(&op, Op::Add(_, t, ..) | Op::Update(_, t, ..) if t.is_empty());
-        if skipped {
-            cx.bump("layered_empty_phrase_ops");
-        }
-        let expect_ok = skipped || u_ref.clone().apply(&op);
-        let apply_l = |l: &mut Layered| -> bool {
-            match &op {
-                Op::Add(k, t, f, tm) => {
-                    let mut ph = Phrase::new(t.as_str(), *f);
-                    if let Some(tm) = tm {
-                        ph = ph.with_time(*tm);
-                    }
-                    l.add_phrase(&syls(k), ph).is_ok()
-                }
-                Op::Update(k, t, f, tm) => l.update_phrase(&syls(k), Phrase::new(t.as_str(), 0), *f, *tm).is_ok(),
-                Op::Remove(k, t) => l.remove_phrase(&syls(k), t).is_ok(),
-                Op::Flush => l.flush().is_ok(),
-                _ => l.reopen().is_ok(),
+        // close-and-open in the sequential schedule: let the writer finish first (as in `run_triebuf`)
+        let ops: Vec<Op> = if matches!(op, Op::CloseOpen) { vec![Op::Reopen, Op::CloseOpen] } else { vec![op] };
+        for op in ops {
+            let skipped = matches!(&op, Op::Add(_, t, ..) | Op::Update(_, t, ..) if t.is_empty());
+            if skipped {
+                cx.bump("layered_empty_phrase_ops");
             }
-        };
-        let ok = apply_l(&mut lay);
-        apply_l(&mut twin);
-        hist.push(op_s(&op));
-        let hs = format!("A: {a_s} | B: {b_s} | user: {}", hist.join(" "));
-        if ok != expect_ok {
-            cx.fail("new", format!("lay [{hs}] the last operation returned {} but the map says {}", ok, expect_ok));
-        }
-        if !skipped {
-            u_ref.apply(&op);
-            u_tr.apply(&op, ok);
-        }
-        for k in &keys {
-            for fz in [false, true] {
-                let full = lookup(&lay, k, usize::MAX, fz);
-                // union of the layers, one entry per phrase, highest frequency
-                let mut want: BTreeMap<String, u32> = BTreeMap::new();
-                let m = |key: &Key| if fz { fuzzy_match(key, k) } else { key == k };
-                for ((key, t), v) in a_ref.m.iter().chain(u_ref.m.iter()) {
-                    if m(key) {
-                        let e = want.entry(t.clone()).or_insert(0);
-                        *e = (*e).max(v.0);
+            let expect_ok = skipped || u_ref.clone().apply(&op);
+            let apply_l = |l: &mut Layered, path: &Path| -> bool {
+                match &op {
+                    Op::Add(k, t, f, tm) => {
+                        let mut ph = Phrase::new(t.as_str(), *f);
+                        if let Some(tm) = tm {
+                            ph = ph.with_time(*tm);
+                        }
+                        l.add_phrase(&syls(k), ph).is_ok()
+                    }
+                    Op::Update(k, t, f, tm) => l.update_phrase(&syls(k), Phrase::new(t.as_str(), 0), *f, *tm).is_ok(),
+                    Op::Remove(k, t) => l.remove_phrase(&syls(k), t).is_ok(),
+                    Op::Flush => l.flush().is_ok(),
+                    Op::Reopen => {
+                        // sequential schedule: wait until a writer in flight has finished
+                        let mut spins = 0u32;
+                        loop {
+                            l.reopen().unwrap();
+                            if !layered_writer_pending(l, 2) {
+                                break;
+                            }
+                            spins += 1;
+                            assert!(spins < 200_000, "snapshot writer never finished");
+                            std::thread::sleep(std::time::Duration::from_micros(50));
+                        }
+                        true
+                    }
+                    Op::CloseOpen => {
+                        // drop the whole `Layered` (Drop of the user layer: sync, flush, join) and build
+                        // it again on the same user file
+                        let old = std::mem::replace(l, Layered::new(vec![], Box::new(TrieBuf::new_in_memory())));
+                        drop(old);
+                        *l = mk(&a_ops, open_user(path)).0;
+                        true
                     }
                 }
-                for ((key, t), v) in &b_ref {
-                    if m(key) {
-                        let e = want.entry(t.clone()).or_insert(0);
-                        *e = (*e).max(v.0);
-                    }
+            };
+            let ok = apply_l(&mut lay, &path);
+            apply_l(&mut twin, &path_twin);
+            hist.push(op_s(&op));
+            let hs = format!("A: {a_s} | B: {b_s} | user: {}", hist.join(" "));
+            if ok != expect_ok {
+                cx.fail("new", format!("{kind} [{hs}] the last operation returned {} but the map says {}", ok, expect_ok));
+            }
+            if !skipped {
+                u_ref.apply(&op);
+                u_tr.apply(&op, ok);
+            }
+            if file {
+                cx.bump(match &op {
+                    Op::Flush => "layf_op_flush",
+                    Op::Reopen => "layf_op_reopen",
+                    Op::CloseOpen => "layf_op_close_open",
+                    _ => "layf_op_write",
+                });
+                if u_tr.any_shadowed() {
+                    cx.bump("layf_steps_with_shadowed_key");
                 }
-                let mut got: BTreeMap<String, u32> = BTreeMap::new();
-                let mut dup = false;
-                for (t, f, _) in &full {
-                    dup |= got.insert(t.clone(), *f).is_some();
-                }
-                if dup || got != want {
-                    // what the known prefix-lookup defect of the TrieBuf layers predicts
-                    let mut c: Vec<(String, Val)> = a_tr.candidates(k, fz, true);
-                    for ((key, t), v) in &b_ref {
+            }
+            for k in &keys {
+                for fz in [false, true] {
+                    let full = lookup(&lay, k, usize::MAX, fz);
+                    // union of the layers, one entry per phrase, highest frequency
+                    let mut want: BTreeMap<String, u32> = BTreeMap::new();
+                    let m = |key: &Key| if fz { fuzzy_match(key, k) } else { key == k };
+                    for ((key, t), v) in a_ref.m.iter().chain(u_ref.m.iter()) {
                         if m(key) {
-                            c.push((t.clone(), (v.0, 0)));
+                            let e = want.entry(t.clone()).or_insert(0);
+                            *e = (*e).max(v.0);
                         }
                     }
-                    c.extend(u_tr.candidates(k, fz, true));
-                    let pred: BTreeMap<String, u32> = dedup_max(c).into_iter().map(|(t, v)| (t, v.0)).collect();
-                    let class = if fz && !dup && got == pred && (a_tr.in_fuzzy_class(k) || u_tr.in_fuzzy_class(k)) {
-                        "FuzzyOverTombstoneOrPending"
-                    } else {
-                        "new"
-                    };
-                    cx.fail(class, format!("lay [{hs}] lookup {} fuzzy={}: got {} expected text->freq {:?}", key_s(k), fz, obs_s(&full), want));
-                }
-                // stable order: an identically built dictionary and a second call give the same sequence
-                if lookup(&twin, k, usize::MAX, fz) != full || lookup(&lay, k, usize::MAX, fz) != full {
-                    cx.fail("new", format!("lay [{hs}] lookup {} fuzzy={}: order is not stable for equal inputs", key_s(k), fz));
-                }
-                if let Some(m) = provided_methods_fail(&lay, k, fz, &full) {
-                    cx.fail("new", format!("lay [{hs}] {m}"));
-                }
-                for n in [0usize, 1, 2, 3] {
-                    let part = lookup(&lay, k, n, fz);
-                    if part[..] != full[..n.min(full.len())] {
-                        cx.fail("new", format!("lay [{hs}] lookup {} n={} fuzzy={}: got {} but the full answer is {}", key_s(k), n, fz, obs_s(&part), obs_s(&full)));
+                    for ((key, t), v) in &b_ref {
+                        if m(key) {
+                            let e = want.entry(t.clone()).or_insert(0);
+                            *e = (*e).max(v.0);
+                        }
+                    }
+                    let mut got: BTreeMap<String, u32> = BTreeMap::new();
+                    let mut dup = false;
+                    for (t, f, _) in &full {
+                        dup |= got.insert(t.clone(), *f).is_some();
+                    }
+                    if dup || got != want {
+                        // what the known defects of the TrieBuf layers predict (`with_f10 = false`: with the
+                        // persisted duplicate of a pending key dropped, as a merge by key would do)
+                        let pred_of = |with_f10: bool| -> BTreeMap<String, u32> {
+                            let mut c: Vec<(String, Val)> = a_tr.candidates(k, fz, true);
+                            for ((key, t), v) in &b_ref {
+                                if m(key) {
+                                    c.push((t.clone(), (v.0, 0)));
+                                }
+                            }
+                            c.extend(u_tr.candidates(k, fz, with_f10));
+                            dedup_max(c).into_iter().map(|(t, v)| (t, v.0)).collect()
+                        };
+                        let class = if dup || got != pred_of(true) {
+                            "new"
+                        } else if pred_of(false) == want && u_tr.any_shadowed() {
+                            "UpdatePersisted"
+                        } else if fz && (a_tr.in_fuzzy_class(k) || u_tr.in_fuzzy_class(k)) {
+                            "FuzzyOverTombstoneOrPending"
+                        } else {
+                            "new"
+                        };
+                        cx.fail(class, format!("{kind} [{hs}] lookup {} fuzzy={}: got {} expected text->freq {:?}", key_s(k), fz, obs_s(&full), want));
+                    }
+                    // stable order: an identically built dictionary and a second call give the same sequence
+                    if lookup(&twin, k, usize::MAX, fz) != full || lookup(&lay, k, usize::MAX, fz) != full {
+                        cx.fail("new", format!("{kind} [{hs}] lookup {} fuzzy={}: order is not stable for equal inputs", key_s(k), fz));
+                    }
+                    if let Some(m) = provided_methods_fail(&lay, k, fz, &full) {
+                        cx.fail("new", format!("{kind} [{hs}] {m}"));
+                    }
+                    for n in [0usize, 1, 2, 3] {
+                        let part = lookup(&lay, k, n, fz);
+                        if part[..] != full[..n.min(full.len())] {
+                            cx.fail("new", format!("{kind} [{hs}] lookup {} n={} fuzzy={}: got {} but the full answer is {}", key_s(k), n, fz, obs_s(&part), obs_s(&full)));
+                        }
                     }
                 }
             }
+            let mut qkeys: Vec<Key> = vec![];
+            match &op {
+                Op::Add(k, ..) | Op::Update(k, ..) | Op::Remove(k, ..) => qkeys.push(k.clone()),
+                _ => {}
+            }
+            let other = rng.pick(&keys).clone();
+            if !qkeys.contains(&other) {
+                qkeys.push(other);
+            }
+            let (qs, ans) = ask(&lay, if ok { "ok" } else { "err" }, &qkeys, rng);
+            cx.out.rec(&squash(&format!("dict {kind} {} {} {} {} {} {} {} {} => {}", a_ops.len(), a_s, b_es.len(), b_s, hist.len(), hist.join(" "), qs.len(), qs.join(" "), ans.join(" "))));
         }
-        let mut qkeys: Vec<Key> = vec![];
-        match &op {
-            Op::Add(k, ..) | Op::Update(k, ..) | Op::Remove(k, ..) => qkeys.push(k.clone()),
-            _ => {}
-        }
-        let other = rng.pick(&keys).clone();
-        if !qkeys.contains(&other) {
-            qkeys.push(other);
-        }
-        let (qs, ans) = ask(&lay, if ok { "ok" } else { "err" }, &qkeys, rng);
-        cx.out.rec(&squash(&format!("dict lay {} {} {} {} {} {} {} {} => {}", a_ops.len(), a_s, b_es.len(), b_s, hist.len(), hist.join(" "), qs.len(), qs.join(" "), ans.join(" "))));
     }
-    cx.bump("histories_layered");
+    cx.bump(if file { "histories_layered_file" } else { "histories_layered" });
 }
 
 fn guarded(cx: &mut Ctx, what: &str, f: impl FnOnce(&mut Ctx)) {
@@ -985,7 +1047,11 @@ fn main() {
     }
     for _ in 0..300 * scale {
         let mut r2 = Rng::new(rng.next());
-        guarded(&mut cx, "layered history", |cx| run_layered(cx, &p, &mut r2, 20));
+        guarded(&mut cx, "layered history", |cx| run_layered(cx, &p, &mut r2, 20, false));
+    }
+    for _ in 0..200 * scale {
+        let mut r2 = Rng::new(rng.next());
+        guarded(&mut cx, "layered history (file-backed user layer)", |cx| run_layered(cx, &p, &mut r2, 20, true));
     }
 
     let stats = std::mem::take(&mut cx.stats);
